@@ -771,4 +771,196 @@ theorem notify_inv (s : ASet) (d : Nat) (a : Bool) (lat : Option Int) (h : SetIn
     simp [ASet.fire, hk, hn, e2'] <;> simp_all
 
 
+/-! ## callbacks of one notification are exactly the emptiness edges -/
+
+/-- replay a callback sequence from a state: every callback must flip the state -/
+def replay : Bool → List Bool → Option Bool
+  | b, [] => some b
+  | b, x :: xs => if x = b then none else replay x xs
+
+theorem replay_append (b : Bool) (l1 l2 : List Bool) :
+    replay b (l1 ++ l2) = (replay b l1).bind fun b' => replay b' l2 := by
+  induction l1 generalizing b with
+  | nil => simp [replay]
+  | cons x xs ih =>
+    simp only [List.cons_append, replay]
+    split
+    · simp
+    · exact ih x
+
+theorem replay_edgeOpt (b b' : Bool) : replay b (edgeOpt b b').toList = some b' := by
+  unfold edgeOpt; cases b <;> cases b' <;> simp [replay]
+
+theorem notify_replay_min (s : ASet) (d : Nat) (a : Bool) (lat : Option Int) :
+    replay s.minD.isSome (s.notify d a lat).2 = some (s.notify d a lat).1.minD.isSome := by
+  rw [notify_eq]
+  simp only [fire_minD]
+  rw [replay_append, phase1_cb, replay_edgeOpt, phase2_cb]
+  simp only [Option.bind_some]   
+  exact replay_edgeOpt _ _
+
+theorem notify_nonmin_silent (s : ASet) (d : Nat) (a : Bool) (lat : Option Int) (h : s.minPolicy = false) :
+    (s.notify d a lat).2 = [] := by
+  rw [notify_eq]
+  have : s.effLat lat = none := by unfold ASet.effLat; simp [h]
+  rw [this]
+  have h1 : (s.phase1 d a none).2 = none := by
+    unfold ASet.phase1; simp [h]; split <;> split <;> rfl
+  have hp : (s.phase1 d a none).1.minPolicy = false := by
+    rw [(phase1_static s d a none).2.2.2.1]; exact h
+  have h2 : ((s.phase1 d a none).1.phase2 d a none).2 = none := by
+    unfold ASet.phase2; simp [hp]
+  rw [h1, h2]; rfl
+
+/-- For a latency-policy set satisfying the invariant, the callbacks of one notification are
+exactly the edges of "the set is non-empty". -/
+theorem notify_replay (s : ASet) (d : Nat) (a : Bool) (lat : Option Int) (h : SetInv s) (hl : LatOK s d lat)
+    (hmp : s.minPolicy = true) :
+    replay (!s.entries.isEmpty) (s.notify d a lat).2 = some (!(s.notify d a lat).1.entries.isEmpty) := by
+  have h2 := notify_inv s d a lat h hl
+  have hmp2 : (s.notify d a lat).1.minPolicy = true := by rw [(notify_static s d a lat).2.2.2.1]; exact hmp
+  have e0 : (!s.entries.isEmpty) = s.minD.isSome := by
+    have := h.sel hmp
+    cases hm : s.minD <;> cases he : s.entries <;> simp_all
+  have e2 : (!(s.notify d a lat).1.entries.isEmpty) = (s.notify d a lat).1.minD.isSome := by
+    have := h2.sel hmp2
+    cases hm : (s.notify d a lat).1.minD <;> cases he : (s.notify d a lat).1.entries <;> simp_all
+  rw [e0, e2]; exact notify_replay_min s d a lat
+
+/-! ## bounded worlds: the oracle hypothesis -/
+
+/-- ten minutes -/
+def slack : Int := 600000000000
+
+def ASet.Bounded (s : ASet) : Prop := s.tol ≤ slack ∧ ∀ d, s.offset d ≤ slack
+
+def Oracle.Small (o : Oracle) : Prop := ∀ e ∈ o, e.2 < hour - 2 * slack
+
+theorem oracle_get_small (o : Oracle) (g i n : Nat) (raw : Int) (ho : o.Small) (h : o.get g i n = some raw) :
+    raw < hour - 2 * slack := by
+  unfold Oracle.get at h
+  split at h
+  · rename_i e he
+    simp only [Option.some.injEq] at h
+    rw [← h]; exact ho e (List.mem_of_find?_eq_some he)
+  · simp at h
+
+theorem latOK_of_bounded (s : ASet) (d : Nat) (o : Oracle) (hb : s.Bounded) (ho : o.Small) :
+    LatOK s d (o.get s.gid s.idx d) := by
+  intro raw hr
+  have := oracle_get_small o _ _ _ raw ho hr
+  have h1 := hb.1
+  have h2 := hb.2 d
+  unfold slack hour at *
+  omega
+
+/-- the per-set invariant carried by every reachable world -/
+def GoodSet (s : ASet) : Prop := SetInv s ∧ s.Bounded
+
+theorem goodSet_notify (s : ASet) (d : Nat) (a : Bool) (o : Oracle) (ho : o.Small) (h : GoodSet s) :
+    GoodSet (s.notify d a (o.get s.gid s.idx d)).1 := by
+  refine ⟨notify_inv s d a _ h.1 (latOK_of_bounded s d o h.2 ho), ?_⟩
+  obtain ⟨_, _, _, _, htol, _, hoff, _⟩ := notify_static s d a (o.get s.gid s.idx d)
+  unfold ASet.Bounded; rw [htol, hoff]; exact h.2
+
+
+/-! ## world level: a per-set property preserved by notifications is preserved by every event -/
+
+section pres
+variable (P : ASet → Prop) (o : Oracle)
+
+/-- `P` is stable under a notification with this event's oracle -/
+def NotifyStable : Prop := ∀ s d a, P s → P (s.notify d a (o.get s.gid s.idx d)).1
+
+theorem notifyOne_pres (hP : NotifyStable P o) (s : ASet) (n c : Nat) (a : Bool) (h : P s) :
+    P (notifyOne s n c a o).1 := by
+  unfold notifyOne; split
+  · exact hP s n a h
+  · exact h
+
+theorem notifyAll_pres (hP : NotifyStable P o) (sets : List ASet) (n c : Nat) (a : Bool)
+    (h : ∀ s ∈ sets, P s) : ∀ s ∈ (notifyAll sets n c a o).1, P s := by
+  induction sets with
+  | nil => intro s hs; simp [notifyAll] at hs
+  | cons x xs ih =>
+    intro s hs
+    simp only [notifyAll, List.mem_cons] at hs
+    rcases hs with rfl | hs
+    · exact notifyOne_pres P o hP x n c a (h x List.mem_cons_self)
+    · exact ih (fun s hs => h s (List.mem_cons_of_mem _ hs)) s hs
+
+def SetsAll (w : World) : Prop := ∀ s ∈ w.sets, P s
+
+theorem markForced_pres (hP : NotifyStable P o) (w : World) (n : Nat) (t : Typ) (h : SetsAll P w) :
+    SetsAll P (markForced w n t o).1 := notifyAll_pres P o hP w.sets n t.idx false h
+
+theorem escalateFrom_pres (hP : NotifyStable P o) (ts : List Typ) (w : World) (n : Nat) (h : SetsAll P w) :
+    SetsAll P (escalateFrom ts w n o).1 := by
+  induction ts generalizing w with
+  | nil => exact h
+  | cons t ts ih => exact ih _ (markForced_pres P o hP w n t h)
+
+theorem cleanupFailures_sets (w : World) : (cleanupFailures w).sets = w.sets := by
+  unfold cleanupFailures; simp only; split
+  · rfl
+  · split <;> rfl
+
+theorem recordFailure_sets (w : World) (a : Nat) : (recordFailure w a).1.sets = w.sets := by
+  unfold recordFailure; simp only; split <;> exact cleanupFailures_sets w
+
+theorem markUnavail_pres (hP : NotifyStable P o) (w : World) (n : Nat) (t : Typ) (tr : Bool) (h : SetsAll P w) :
+    SetsAll P (markUnavail w n t tr o).1 := by
+  unfold markUnavail
+  split
+  · exact h
+  · simp only
+    apply notifyAll_pres P o hP
+    split
+    · split
+      · apply escalateFrom_pres P o hP
+        intro s hs; rw [recordFailure_sets] at hs; exact h s hs
+      · intro s hs; rw [recordFailure_sets] at hs; exact h s hs
+    · exact h
+
+theorem markAvail_pres (hP : NotifyStable P o) (w : World) (n : Nat) (t : Typ) (h : SetsAll P w) :
+    SetsAll P (markAvail w n t o).1 := notifyAll_pres P o hP w.sets n t.idx true h
+
+theorem trafficOk_pres (hP : NotifyStable P o) (w : World) (n : Nat) (t : Typ) (h : SetsAll P w) :
+    SetsAll P (trafficOk w n t o).1 := by
+  unfold trafficOk; simp only; split
+  · exact markAvail_pres P o hP _ n t h
+  · exact h
+
+theorem restoreIdx_pres (hP : NotifyStable P o) (w : World) (n : Nat) (s : Snapshot) (i : Nat) (h : SetsAll P w) :
+    SetsAll P (restoreIdx w n s o i).1 := notifyAll_pres P o hP w.sets n (canon i) (s.alive i) h
+
+theorem restoreFrom_pres (hP : NotifyStable P o) (is : List Nat) (w : World) (n : Nat) (s : Snapshot)
+    (h : SetsAll P w) : SetsAll P (restoreFrom is w n s o).1 := by
+  induction is generalizing w with
+  | nil => exact h
+  | cons i is ih => exact ih _ (restoreIdx_pres P o hP w n s i h)
+
+theorem markAliveFallback_pres (hP : NotifyStable P o) (w : World) (n : Nat) (t : Typ) (h : SetsAll P w) :
+    SetsAll P (markAliveFallback w n t o).1 := notifyAll_pres P o hP w.sets n t.idx true h
+
+theorem floorOne_pres (hP : NotifyStable P o) (w : World) (g : Nat) (fb : Nat → Option Nat) (t : Typ)
+    (h : SetsAll P w) : SetsAll P (floorOne w g fb o t).1 := by
+  unfold floorOne
+  split
+  · exact h
+  · split
+    · exact h
+    · split
+      · exact h
+      · exact markAliveFallback_pres P o hP w _ t h
+
+theorem floorFrom_pres (hP : NotifyStable P o) (ts : List Typ) (w : World) (g : Nat) (fb : Nat → Option Nat)
+    (h : SetsAll P w) : SetsAll P (floorFrom ts w g fb o).1 := by
+  induction ts generalizing w with
+  | nil => exact h
+  | cons t ts ih => exact ih _ (floorOne_pres P o hP w g fb t h)
+
+end pres
+
+
 end DaeVerif.C16
